@@ -725,6 +725,9 @@ func init() {
 		return m
 	}
 	I["(*sync.Map).Load"] = func(in *Interp, caller *frame, fn *ssa.Function, args []Value) Value {
+		if s := in.sched; s != nil {
+			s.yield(in.g, "sync.Map.Load")
+		}
 		v, ok := in.mapGet(smap(in, args[0]), args[1])
 		if !ok {
 			v = (*IfaceV)(nil)
@@ -732,6 +735,9 @@ func init() {
 		return []Value{v, BoolT(ok)}
 	}
 	I["(*sync.Map).Store"] = func(in *Interp, caller *frame, fn *ssa.Function, args []Value) Value {
+		if s := in.sched; s != nil {
+			s.yield(in.g, "sync.Map.Store")
+		}
 		in.mapSet(smap(in, args[0]), args[1], args[2])
 		return nil
 	}
@@ -747,15 +753,41 @@ func init() {
 		in.mapDelete(smap(in, args[0]), args[1])
 		return nil
 	}
+	// sync.Pool: a real pool — Get may hand back any object put earlier (choice)
+	// or a new one, so that reuse of released objects is explored.
 	I["(*sync.Pool).Get"] = func(in *Interp, caller *frame, fn *ssa.Function, args []Value) Value {
 		c := in.derefCheck(args[0])
+		h := in.hidden(c, "pool")
+		items, _ := h.v.([]Value)
+		if s := in.sched; s != nil {
+			s.yield(in.g, "Pool.Get")
+		}
+		k := len(items)
+		if len(items) > 0 {
+			k = in.choose(len(items)+1, "pool")
+		}
+		if k < len(items) {
+			it := items[k]
+			rest := append(append([]Value{}, items[:k]...), items[k+1:]...)
+			in.set(h, rest)
+			return it
+		}
 		nf := fieldCell(c, "New")
 		if f, _ := nf.v.(*FuncV); f != nil {
 			return in.callFunc(caller, 0, f, nil)
 		}
 		return (*IfaceV)(nil)
 	}
-	I["(*sync.Pool).Put"] = func(in *Interp, caller *frame, fn *ssa.Function, args []Value) Value { return nil }
+	I["(*sync.Pool).Put"] = func(in *Interp, caller *frame, fn *ssa.Function, args []Value) Value {
+		c := in.derefCheck(args[0])
+		h := in.hidden(c, "pool")
+		items, _ := h.v.([]Value)
+		if isNilIface(args[1]) {
+			return nil
+		}
+		in.set(h, append(append([]Value{}, items...), args[1]))
+		return nil
+	}
 
 	// sync/atomic typed values: field "v"
 	vcell := func(in *Interp, v Value) *Cell { return fieldCell(in.derefCheck(v), "v") }
